@@ -92,7 +92,8 @@ def dyadic(rng, lo=-64, hi=64):
 
 def gen_values(rng, npx, spec, big64=False):
     """spec: {"count": dtype or None, extra columns...}; returns dict col->list.
-    big64: let 64-bit integers exceed 2**53 (exactness beyond float64)."""
+    big64: let 64-bit integers exceed 2**53 (odd values in [2**53, 2**53.4]: not representable in
+    float64, while the total of <= 400 of them still fits int64)."""
     out = {}
     for col, dt in spec.items():
         if dt in ("int32", "int64", "int16", "uint16"):
@@ -102,7 +103,7 @@ def gen_values(rng, npx, spec, big64=False):
             elif mag == "one":
                 out[col] = [1] * npx
             else:
-                lim = {"int32": 2**31 - 1, "int64": 2**63 - 1 if big64 else 2**40, "int16": 2**15 - 1,
+                lim = {"int32": 2**31 - 1, "int64": 2**55 if big64 else 2**40, "int16": 2**15 - 1,
                        "uint16": 2**16 - 1}[dt]
                 out[col] = [rng.randint(lim // 4, lim // 3) | 1 for _ in range(npx)]
         else:
